@@ -169,6 +169,13 @@ seen) is unspecified in the real code (dict-of-sets iteration order). -/
 def makeEdgeNode (faces : List (List Int)) : List Pair :=
   dedup ((allPairs faces).map normPair)
 
+/-- `w` lists the same undirected edges as `own`, each once — in any order and with either
+orientation of a pair.  The real code's edge numbering is an accident of dict / set iteration
+order; the property leaves it free, so the model accepts any such numbering. -/
+def isRenumbering (w own : List Pair) : Bool :=
+  decide ((w.map normPair).Nodup) && w.all (fun e => own.contains (normPair e))
+    && own.all (fun e => (w.map normPair).contains e)
+
 def pairRow (p : Pair) : List (Option Int) := [some p.1, some p.2]
 
 /-- an edge-node table → list of pairs; rows that are not two unmasked cells are outside the model -/
@@ -247,16 +254,20 @@ def makeFaceFace (nfaces w : Nat) (ef : Table) : Except Err Table :=
 
 /-- what the dataset level hands over: the normalised face-node table, whether an edge
 dimension exists and its size if the dataset has that dimension, and for each optional
-table the decoded supplied one if it passed its validity test (`none` otherwise) -/
+table the supplied one if it passed its validity test (`none` otherwise), decoded by
+`_to_index_array` (which may itself raise, hence `Except`) -/
 structure TopoIn where
   faceNode : Table
   width : Nat
   hasEdgeDim : Bool
   edgeDimSize : Option Nat
-  edgeNode : Option Table
-  faceEdge : Option Table
-  edgeFace : Option Table
-  faceFace : Option Table
+  edgeNode : Option (Except Err Table)
+  faceEdge : Option (Except Err Table)
+  edgeFace : Option (Except Err Table)
+  faceFace : Option (Except Err Table)
+  /-- a proposed numbering of the derived edges (the order the real code happened to choose);
+  used only if it is a renumbering of the model's own derived edge list -/
+  numbering : Option (List Pair) := none
   deriving Repr
 
 namespace TopoIn
@@ -266,12 +277,18 @@ def faces (t : TopoIn) : List (List Int) := facesOf t.faceNode
 /-- `_face_and_node_pair_iter` raises IndexError on a face without nodes (`node_indexes[0]`) -/
 def facesOk (t : TopoIn) : Bool := t.faces.all (· ≠ [])
 
+/-- the derived edge list in the numbering in use -/
+def derivedEdges (t : TopoIn) : List Pair :=
+  match t.numbering with
+  | some w => if isRenumbering w (makeEdgeNode t.faces) then w else makeEdgeNode t.faces
+  | none => makeEdgeNode t.faces
+
 /-- `edge_node_array` -/
 def edgeNodeArray (t : TopoIn) : Except Err Table :=
   if !t.hasEdgeDim then .error .noEdgeDim
   else match t.edgeNode with
-    | some tab => .ok tab
-    | none => if t.facesOk then .ok ((makeEdgeNode t.faces).map pairRow) else .error .index
+    | some tab => tab
+    | none => if t.facesOk then .ok (t.derivedEdges.map pairRow) else .error .index
 
 /-- `edge_count` -/
 def edgeCount (t : TopoIn) : Except Err Nat :=
@@ -283,7 +300,7 @@ def edgeCount (t : TopoIn) : Except Err Nat :=
 /-- `face_edge_array` -/
 def faceEdgeArray (t : TopoIn) : Except Err Table :=
   match t.faceEdge with
-  | some tab => .ok tab
+  | some tab => tab
   | none =>
     match t.edgeNodeArray with
     | .error e => .error e
@@ -295,7 +312,7 @@ def faceEdgeArray (t : TopoIn) : Except Err Table :=
 /-- `edge_face_array` -/
 def edgeFaceArray (t : TopoIn) : Except Err Table :=
   match t.edgeFace with
-  | some tab => .ok tab
+  | some tab => tab
   | none =>
     match t.edgeCount with
     | .error e => .error e
@@ -307,7 +324,7 @@ def edgeFaceArray (t : TopoIn) : Except Err Table :=
 /-- `face_face_array` -/
 def faceFaceArray (t : TopoIn) : Except Err Table :=
   match t.faceFace with
-  | some tab => .ok tab
+  | some tab => tab
   | none =>
     match t.edgeFaceArray with
     | .error e => .error e
